@@ -230,7 +230,7 @@ theorem base_call_err {m : MFS} {c : Call} {e : Err} (hnr : ∀ n, c ≠ .remove
 
 theorem base_removeAll {m : MFS} {n : Path} :
     ((nestedCfg bk hk).side .base).call m (.removeAll n) =
-      liftU (hiddenRemoveAll (nhs hk) (inner bk dd) 64 m n) := rfl
+      liftU (hiddenRemoveAll (nhs hk) (inner bk dd) 64 m (rmName n)) := rfl
 
 theorem prefixFS_call_gen {σ} (pre : Path) (fs : FSI σ) (s : σ) (c : Call) :
     (prefixFS pre fs).call s c =
